@@ -5,6 +5,7 @@
 import MotoModel.Proofs.DiskChain
 import MotoModel.Proofs.DiskPreserve
 import MotoModel.Proofs.DiskHistory
+import MotoModel.Proofs.DiskPlace
 import MotoModel.Props.C10
 namespace Moto.C05
 open Moto Moto.Disk
@@ -312,5 +313,20 @@ theorem every_archive_consistent (fl : Flavour) (archive : Str) (hist : List (Ta
       rw [hw2]
       exact ih img2 hok2 (fun r' hr' => hs' r' (by simp [hr']))
   exact key rest img1 hok1 (fun r hr => hs r (by simp [hr]))
+
+/-- **C05 (free-block count)**: on a consistent side a stored file takes exactly the blocks it needs
+    from the free ones — the table afterwards has `reqBlocks` fewer free blocks — and a refused file
+    leaves the table, hence the free-block count, as it was -/
+theorem free_block_count {sd : Side} {bat : List Nat} {own : Nat → List Nat} (inv : SideInv sd bat own)
+    (content : Bytes) (name ext : Str) (kind flag : Nat) (hname : ∀ c ∈ name, c ≠ 0xFF) :
+    (∃ sd', writeFile sd content name ext kind flag = .ok sd' ∧ getBat sd' = .ok (newBat bat content)
+        ∧ freeBlocks (newBat bat content) = freeBlocks bat - reqBlocks content.length ∧ reqBlocks content.length ≤ freeBlocks bat)
+    ∨ (∃ sd' msg, writeFile sd content name ext kind flag = .raised (.valueError msg) sd' ∧ getBat sd' = .ok bat) := by
+  rcases writeFile_inv inv content name ext kind flag hname with ⟨sd', i0, hw, _, _, inv', _⟩ | ⟨sd', msg, hw, inv', _⟩
+  · left
+    have hfit := ((writeFile_ok_iff inv content name ext kind flag).mp ⟨sd', hw⟩).1
+    exact ⟨sd', hw, inv'.hbat, freeBlocks_newBat bat content (getBat_length sd bat inv.hbat), hfit⟩
+  · right
+    exact ⟨sd', msg, hw, inv'.hbat⟩
 
 end Moto.C05
